@@ -1,7 +1,745 @@
-//! C41 — not built yet.
-use lv_common::Ctx;
+//! C41 — Closing the redb store waits for in-flight work without hanging.
+//!
+//! (a) `poll-schedules`: every schedule over {poll the waiter, drop guard i, cancel the wait and start
+//!     a new one after creating k more guards} for at most 3 guards, single-threaded, manual polling
+//!     of the `wait_guards` future with a counting waker. Exhaustive up to the stated length.
+//!     (A guard cannot be created *while* a `wait_guards` future exists: it borrows the counter
+//!     mutably. The "create guard during wait" action of the design is therefore "cancel, create,
+//!     wait again".)
+//! (b) `threads`: real threads — one waiter (`futures::executor::block_on`), 1..3 holders — with the
+//!     `sched_point` hooks turned into seeded delays of 0..50 us.
+//! (c) `store-close`: N operations started on a `RedbStore` (multi-thread runtime), a generated subset
+//!     of the awaiting futures dropped after their first poll (their `spawn_blocking` work
+//!     continues), `close()`, then `Arc::strong_count(raw_db) == 1`.
+//!
+//! A hang is reported only if it reproduces twice under the same delay script (10 s real-time grace
+//! each); a timeout that does not reproduce makes the run inconclusive (exit 2), never a violation.
 
-pub fn run(_ctx: &mut Ctx) {
-    eprintln!("C41: check not built yet");
-    std::process::exit(2);
+use std::future::Future;
+use std::pin::Pin;
+use std::sync::atomic::{AtomicBool, AtomicU64, AtomicUsize, Ordering};
+use std::sync::{Arc, Mutex, OnceLock, mpsc};
+use std::task::{Context, Poll, Wake, Waker};
+use std::time::{Duration, Instant};
+
+use celestia_types::ExtendedHeader;
+use lumina_node::store::{RedbStore, Store};
+use lumina_node::verif::{COUNTER_SCHED_POINTS, VerifCounter, VerifCounterGuard, counter_sched_clear, counter_sched_install};
+use lv_common::prelude::*;
+use lv_gen::chain::{TimeBase, build_chain, simple_chain_spec};
+
+const GRACE: Duration = Duration::from_secs(10);
+const MAX_GUARDS: usize = 3;
+
+static INCONCLUSIVE: Mutex<Vec<String>> = Mutex::new(Vec::new());
+
+fn note_inconclusive(s: String) {
+    let mut v = INCONCLUSIVE.lock().unwrap_or_else(|e| e.into_inner());
+    if v.len() < 8 {
+        v.push(s);
+    }
+}
+
+// ------------------------------------------------------------------ (a) poll-level schedules
+
+#[derive(Clone, Copy, Debug, Serialize, Deserialize, PartialEq)]
+pub enum Act {
+    /// poll the current `wait_guards` future once
+    Poll,
+    /// drop guard number i (numbered in creation order)
+    Drop(u8),
+    /// drop the current `wait_guards` future, create `new` guards, start a new `wait_guards`
+    Restart { new: u8 },
+}
+
+#[derive(Clone, Debug, Serialize, Deserialize)]
+pub struct Sched {
+    pub initial: u8,
+    pub acts: Vec<Act>,
+}
+
+struct CountingWaker(AtomicUsize);
+
+impl Wake for CountingWaker {
+    fn wake(self: Arc<Self>) {
+        self.0.fetch_add(1, Ordering::SeqCst);
+    }
+    fn wake_by_ref(self: &Arc<Self>) {
+        self.0.fetch_add(1, Ordering::SeqCst);
+    }
+}
+
+/// All valid schedules with at most `max_len` actions.
+fn all_schedules(max_len: usize) -> Vec<Sched> {
+    #[derive(Clone)]
+    struct St {
+        live: Vec<bool>,
+        done: bool,
+        restarts: u8,
+    }
+    fn rec(out: &mut Vec<Sched>, initial: u8, acts: &mut Vec<Act>, st: &St, max_len: usize) {
+        out.push(Sched {
+            initial,
+            acts: acts.clone(),
+        });
+        if acts.len() == max_len {
+            return;
+        }
+        if !st.done {
+            let mut n = st.clone();
+            n.done = !st.live.iter().any(|l| *l);
+            acts.push(Act::Poll);
+            rec(out, initial, acts, &n, max_len);
+            acts.pop();
+        }
+        for i in 0..st.live.len() {
+            if st.live[i] {
+                let mut n = st.clone();
+                n.live[i] = false;
+                acts.push(Act::Drop(i as u8));
+                rec(out, initial, acts, &n, max_len);
+                acts.pop();
+            }
+        }
+        if st.restarts < 2 {
+            for new in 0..=(MAX_GUARDS - st.live.len()) {
+                let mut n = st.clone();
+                n.done = false;
+                n.restarts += 1;
+                n.live.extend(std::iter::repeat_n(true, new));
+                acts.push(Act::Restart { new: new as u8 });
+                rec(out, initial, acts, &n, max_len);
+                acts.pop();
+            }
+        }
+    }
+    let mut out = Vec::new();
+    for initial in 0..=MAX_GUARDS as u8 {
+        let st = St {
+            live: vec![true; initial as usize],
+            done: false,
+            restarts: 0,
+        };
+        rec(&mut out, initial, &mut Vec::new(), &st, max_len);
+    }
+    out
+}
+
+fn run_sched(s: &Sched, obs: &mut Obs) -> Result<(), Failure> {
+    let wk = Arc::new(CountingWaker(AtomicUsize::new(0)));
+    let waker = Waker::from(wk.clone());
+    let mut cx = Context::from_waker(&waker);
+    let mut counter = VerifCounter::new();
+    let mut guards: Vec<Option<VerifCounterGuard>> = (0..s.initial).map(|_| Some(counter.guard())).collect();
+    let mut i = 0usize;
+    let mut dropped_while_pending = false;
+    let mut restarted_pending = false;
+    loop {
+        let mut to_create = None;
+        {
+            let mut fut: Pin<Box<dyn Future<Output = ()> + '_>> = Box::pin(counter.wait_guards());
+            let mut done = false;
+            // Some(wake count at the last Pending poll) while the waiter is registered
+            let mut pending_since: Option<usize> = None;
+            while i < s.acts.len() {
+                let act = s.acts[i];
+                i += 1;
+                match act {
+                    Act::Poll => {
+                        if done {
+                            return Err(Failure::new("gen", format!("schedule polls a completed future: {s:?}")));
+                        }
+                        let live = guards.iter().flatten().count();
+                        match fut.as_mut().poll(&mut cx) {
+                            Poll::Ready(()) => {
+                                obs.check(live == 0, "C41:wait-completed-with-live-guards", || {
+                                    format!("action #{} of {s:?}: wait_guards returned Ready while {live} guard(s) are not dropped", i - 1)
+                                })?;
+                                done = true;
+                                pending_since = None;
+                                obs.label(if dropped_while_pending { "ready-after-pending" } else { "ready-at-first-poll" });
+                            }
+                            Poll::Pending => {
+                                obs.check(live > 0, "C41:wait-pending-without-guards", || {
+                                    format!("action #{} of {s:?}: every guard is dropped but wait_guards returned Pending", i - 1)
+                                })?;
+                                pending_since = Some(wk.0.load(Ordering::SeqCst));
+                                obs.label("pending-poll");
+                            }
+                        }
+                    }
+                    Act::Drop(j) => {
+                        let g = guards.get_mut(j as usize).and_then(|g| g.take());
+                        if g.is_none() {
+                            return Err(Failure::new("gen", format!("schedule drops a dead guard: {s:?}")));
+                        }
+                        drop(g);
+                        let live = guards.iter().flatten().count();
+                        if let Some(w0) = pending_since {
+                            dropped_while_pending = true;
+                            obs.label("drop-while-waiter-pending");
+                            if live == 0 {
+                                let w = wk.0.load(Ordering::SeqCst);
+                                obs.check(w > w0, "C41:last-drop-did-not-wake-waiter", || {
+                                    format!("action #{} of {s:?}: the last guard was dropped while the waiter was parked (Pending) and its waker was not woken: the wait would hang", i - 1)
+                                })?;
+                                obs.label("last-drop-woke-waiter");
+                            }
+                        }
+                    }
+                    Act::Restart { new } => {
+                        if pending_since.is_some() {
+                            restarted_pending = true;
+                        }
+                        to_create = Some(new);
+                        break;
+                    }
+                }
+            }
+            if to_create.is_none() && !done {
+                // end of schedule: one more poll decides
+                let live = guards.iter().flatten().count();
+                let r = fut.as_mut().poll(&mut cx);
+                obs.check(r.is_ready() == (live == 0), "C41:final-poll-wrong", || {
+                    format!("after {s:?}: {live} live guard(s) but the final poll returned {r:?}")
+                })?;
+            }
+        }
+        match to_create {
+            Some(new) => {
+                for _ in 0..new {
+                    guards.push(Some(counter.guard()));
+                }
+                obs.label("wait-cancelled-and-restarted");
+            }
+            None => break,
+        }
+    }
+    if restarted_pending {
+        obs.label("cancelled-a-parked-wait");
+    }
+    obs.eval(dropped_while_pending.then(|| digest_of(s)));
+    Ok(())
+}
+
+// ------------------------------------------------------------------ (b) threads
+
+#[derive(Clone, Debug, Serialize, Deserialize)]
+pub struct Stress {
+    pub seed: u64,
+    pub n_guards: u8,
+    /// per scheduling point: maximal injected delay in microseconds (0..=50)
+    pub max_delay_us: [u8; COUNTER_SCHED_POINTS],
+    /// spin before each holder drops its guard / before the waiter starts, in microseconds
+    pub holder_pre_us: [u8; 3],
+    pub waiter_pre_us: u8,
+    pub iters: u16,
+}
+
+fn stress_strategy(iters: u16) -> impl Strategy<Value = Stress> {
+    let d = || prop_oneof![2 => Just(0u8), 2 => 1u8..=10, 2 => 10u8..=50];
+    (
+        any::<u64>(),
+        1u8..=3,
+        [d(), d(), d(), d(), d(), d(), d(), d()],
+        [0u8..40, 0u8..40, 0u8..40],
+        0u8..40,
+    )
+        .prop_map(move |(seed, n_guards, max_delay_us, holder_pre_us, waiter_pre_us)| Stress {
+            seed,
+            n_guards,
+            max_delay_us,
+            holder_pre_us,
+            waiter_pre_us,
+            iters,
+        })
+}
+
+fn spin_for(d: Duration) {
+    let t = Instant::now();
+    while t.elapsed() < d {
+        std::hint::spin_loop();
+    }
+}
+
+fn mix64(a: u64, b: u64) -> u64 {
+    let mut z = a ^ b.wrapping_mul(0x9E3779B97F4A7C15);
+    z = (z ^ (z >> 30)).wrapping_mul(0xBF58476D1CE4E5B9);
+    z = (z ^ (z >> 27)).wrapping_mul(0x94D049BB133111EB);
+    z ^ (z >> 31)
+}
+
+fn delays_ns(us: &[u8; COUNTER_SCHED_POINTS]) -> [u32; COUNTER_SCHED_POINTS] {
+    let mut out = [0u32; COUNTER_SCHED_POINTS];
+    for (o, u) in out.iter_mut().zip(us) {
+        *o = *u as u32 * 1000;
+    }
+    out
+}
+
+
+enum StressOutcome {
+    /// every round returned; `early` = rounds in which wait_guards returned before every holder had
+    /// begun dropping its guard
+    Finished { rounds: usize, early: Vec<usize> },
+    /// no progress for a whole grace period although every guard of the waiter's round was dropped
+    Hang { round: usize },
+}
+
+/// One run of all rounds of a case: 1 waiter thread + n holder threads go through `iters` rounds
+/// (round r uses its own counter; holder k owns guard k of every round). A holder never runs ahead
+/// of the waiter by more than the round the waiter has announced, so drops race with the wait of the
+/// same round. The delay script stays installed for the whole run.
+fn stress_run(c: &Stress) -> StressOutcome {
+    let n = c.n_guards.clamp(1, 3) as usize;
+    let rounds = c.iters.max(1) as usize;
+    counter_sched_install(c.seed, delays_ns(&c.max_delay_us));
+    let mut counters: Vec<VerifCounter> = (0..rounds).map(|_| VerifCounter::new()).collect();
+    let mut guards: Vec<Vec<VerifCounterGuard>> = (0..n).map(|_| Vec::with_capacity(rounds)).collect();
+    for ctr in &counters {
+        for g in guards.iter_mut() {
+            g.push(ctr.guard());
+        }
+    }
+    let began: Arc<Vec<AtomicBool>> = Arc::new((0..rounds * n).map(|_| AtomicBool::new(false)).collect());
+    let dropped: Arc<Vec<AtomicBool>> = Arc::new((0..rounds * n).map(|_| AtomicBool::new(false)).collect());
+    // round the waiter has announced (usize::MAX = none yet)
+    let waiter_round = Arc::new(AtomicUsize::new(usize::MAX));
+    let abort = Arc::new(AtomicBool::new(false));
+    let mut holders = Vec::new();
+    for (k, gs) in guards.drain(..).enumerate() {
+        let (began, dropped, waiter_round, abort) = (began.clone(), dropped.clone(), waiter_round.clone(), abort.clone());
+        let (seed, pre_us) = (c.seed, c.holder_pre_us[k] as u64);
+        holders.push(std::thread::spawn(move || {
+            for (r, g) in gs.into_iter().enumerate() {
+                // some rounds the holder does not wait for the waiter (guard dropped before the wait starts)
+                let eager = mix64(seed, (r * 8 + k) as u64 + 1000) % 4 == 0;
+                while !eager {
+                    let w = waiter_round.load(Ordering::Acquire);
+                    if (w != usize::MAX && w >= r) || abort.load(Ordering::Relaxed) {
+                        break;
+                    }
+                    std::thread::yield_now();
+                }
+                if abort.load(Ordering::Relaxed) {
+                    std::mem::forget(g);
+                    return;
+                }
+                spin_for(Duration::from_nanos(pre_us * 1000 * (mix64(seed, (r * 8 + k) as u64) % 3) / 2));
+                began[r * n + k].store(true, Ordering::SeqCst);
+                drop(g);
+                dropped[r * n + k].store(true, Ordering::SeqCst);
+            }
+        }));
+    }
+    let (tx, rx) = mpsc::channel::<Vec<usize>>();
+    let (wbegan, wround) = (began.clone(), waiter_round.clone());
+    let (seed, wpre) = (c.seed, c.waiter_pre_us as u64);
+    let counters_moved = std::mem::take(&mut counters);
+    std::thread::spawn(move || {
+        let mut early = Vec::new();
+        for (r, mut ctr) in counters_moved.into_iter().enumerate() {
+            wround.store(r, Ordering::Release);
+            spin_for(Duration::from_nanos(wpre * 1000 * (mix64(seed, r as u64 + 77) % 3) / 2));
+            futures::executor::block_on(ctr.wait_guards());
+            if !(0..n).all(|k| wbegan[r * n + k].load(Ordering::SeqCst)) {
+                early.push(r);
+            }
+        }
+        let _ = tx.send(early);
+    });
+    // watch for progress
+    let progress = |wr: &AtomicUsize, dr: &Vec<AtomicBool>| (wr.load(Ordering::SeqCst), dr.iter().filter(|d| d.load(Ordering::SeqCst)).count());
+    let mut last = progress(&waiter_round, &dropped);
+    let out = loop {
+        match rx.recv_timeout(GRACE) {
+            Ok(early) => break StressOutcome::Finished { rounds, early },
+            Err(_) => {
+                let now = progress(&waiter_round, &dropped);
+                let r = now.0;
+                let all_dropped = r != usize::MAX && (0..n).all(|k| dropped[r * n + k].load(Ordering::SeqCst));
+                if now == last && all_dropped {
+                    break StressOutcome::Hang { round: r };
+                }
+                last = now;
+            }
+        }
+    };
+    abort.store(true, Ordering::SeqCst);
+    for h in holders {
+        let _ = h.join();
+    }
+    counter_sched_clear();
+    out
+}
+
+fn run_stress(c: &Stress, obs: &mut Obs) -> Result<(), Failure> {
+    let label = match c.n_guards.clamp(1, 3) {
+        1 => "threads-1-guard",
+        2 => "threads-2-guards",
+        _ => "threads-3-guards",
+    };
+    let pd = digest_of(&(c.n_guards, c.max_delay_us, c.holder_pre_us, c.waiter_pre_us));
+    let mut outcome = stress_run(c);
+    if let StressOutcome::Hang { round } = outcome {
+        // must reproduce under the same delay script before it is called a hang
+        outcome = stress_run(c);
+        match outcome {
+            StressOutcome::Hang { round: r2 } => {
+                obs.eval(Some(mix64(c.seed, round as u64) ^ pd));
+                obs.fail(
+                    "C41:wait-guards-hang",
+                    format!("{c:?}: every guard of round {round} (second run: round {r2}) was dropped but wait_guards made no progress for {GRACE:?}; reproduced twice under the same delay script"),
+                )?;
+                return Ok(());
+            }
+            StressOutcome::Finished { .. } => {
+                obs.label("timeout-not-reproduced");
+                note_inconclusive(format!("threads: {c:?} stalled once for {GRACE:?} in round {round} and did not reproduce"));
+            }
+        }
+    }
+    if let StressOutcome::Finished { rounds, early } = outcome {
+        for r in 0..rounds {
+            obs.eval(Some(mix64(c.seed, r as u64) ^ pd));
+        }
+        obs.label_n(label, rounds as u64);
+        obs.check(early.is_empty(), "C41:wait-completed-with-live-guards", || {
+            format!("{c:?}: in rounds {early:?} wait_guards returned before every holder had started dropping its guard")
+        })?;
+    }
+    Ok(())
+}
+
+// ------------------------------------------------------------------ (c) store level
+
+#[derive(Clone, Debug, Serialize, Deserialize)]
+pub enum StoreOp {
+    /// insert the next `len` headers above everything inserted so far
+    Insert { len: u8 },
+    GetHead,
+    GetByHeight { h: u8 },
+    HasAt { h: u8 },
+    MarkSampled { h: u8 },
+    StoredRanges,
+    RemoveLowest,
+}
+
+#[derive(Clone, Debug, Serialize, Deserialize)]
+pub struct CloseCase {
+    pub seed: u64,
+    pub ops: Vec<StoreOp>,
+    /// bit i set = the future of op i is dropped after its first poll ("aborted")
+    pub abort_mask: u8,
+    /// aborted futures are dropped before (true) or after the kept ones were awaited
+    pub abort_first: bool,
+    pub blocking_threads: u8,
+    pub max_delay_us: [u8; COUNTER_SCHED_POINTS],
+    pub on_disk: bool,
+}
+
+fn store_op() -> impl Strategy<Value = StoreOp> {
+    prop_oneof![
+        4 => (1u8..=12).prop_map(|len| StoreOp::Insert { len }),
+        1 => Just(StoreOp::GetHead),
+        2 => (1u8..40).prop_map(|h| StoreOp::GetByHeight { h }),
+        1 => (1u8..40).prop_map(|h| StoreOp::HasAt { h }),
+        1 => (1u8..12).prop_map(|h| StoreOp::MarkSampled { h }),
+        1 => Just(StoreOp::StoredRanges),
+        1 => Just(StoreOp::RemoveLowest),
+    ]
+}
+
+fn close_strategy() -> impl Strategy<Value = CloseCase> {
+    let d = || prop_oneof![3 => Just(0u8), 2 => 1u8..=10, 2 => 10u8..=50];
+    (
+        any::<u64>(),
+        prop::collection::vec(store_op(), 1..=6),
+        any::<u8>(),
+        any::<bool>(),
+        1u8..=3,
+        [d(), d(), d(), d(), d(), d(), d(), d()],
+        prop::bool::weighted(0.15),
+    )
+        .prop_map(|(seed, ops, abort_mask, abort_first, blocking_threads, max_delay_us, on_disk)| CloseCase {
+            seed,
+            ops,
+            abort_mask,
+            abort_first,
+            blocking_threads,
+            max_delay_us,
+            on_disk,
+        })
+}
+
+fn headers() -> &'static Vec<ExtendedHeader> {
+    static H: OnceLock<Vec<ExtendedHeader>> = OnceLock::new();
+    H.get_or_init(|| build_chain(&simple_chain_spec(0xC41, 1, 96, TimeBase::Fixed(1_700_000_000), 6000)).headers)
+}
+
+enum CloseOutcome {
+    Closed { refs_after: usize, refs_after_wait: usize, inflight_before: usize, reopen_err: Option<String> },
+    Timeout,
+    Setup(String),
+}
+
+type OpFut<'a> = Pin<Box<dyn Future<Output = ()> + Send + 'a>>;
+
+fn op_future<'a>(store: &'a RedbStore, op: &StoreOp, next: &mut usize) -> OpFut<'a> {
+    let hs = headers();
+    match op {
+        StoreOp::Insert { len } => {
+            let from = (*next).min(hs.len());
+            let to = (from + *len as usize).min(hs.len());
+            *next = to;
+            let batch = hs[from..to].to_vec();
+            Box::pin(async move {
+                let _ = store.insert(batch).await;
+            })
+        }
+        StoreOp::GetHead => Box::pin(async move {
+            let _ = store.get_head().await;
+        }),
+        StoreOp::GetByHeight { h } => {
+            let h = *h as u64;
+            Box::pin(async move {
+                let _ = store.get_by_height(h).await;
+            })
+        }
+        StoreOp::HasAt { h } => {
+            let h = *h as u64;
+            Box::pin(async move {
+                let _ = store.has_at(h).await;
+            })
+        }
+        StoreOp::MarkSampled { h } => {
+            let h = *h as u64;
+            Box::pin(async move {
+                let _ = store.mark_as_sampled(h).await;
+            })
+        }
+        StoreOp::StoredRanges => Box::pin(async move {
+            let _ = store.get_stored_header_ranges().await;
+        }),
+        StoreOp::RemoveLowest => Box::pin(async move {
+            if let Ok(r) = store.get_stored_header_ranges().await {
+                if let Some(t) = r.tail() {
+                    let _ = store.remove_height(t).await;
+                }
+            }
+        }),
+    }
+}
+
+static FILE_NO: AtomicU64 = AtomicU64::new(0);
+
+fn close_once(c: &CloseCase) -> CloseOutcome {
+    let rt = match tokio::runtime::Builder::new_multi_thread()
+        .worker_threads(2)
+        .max_blocking_threads(c.blocking_threads.clamp(1, 3) as usize)
+        .enable_all()
+        .build()
+    {
+        Ok(rt) => rt,
+        Err(e) => return CloseOutcome::Setup(format!("runtime: {e}")),
+    };
+    let path = c.on_disk.then(|| {
+        std::env::temp_dir().join(format!("lv-c41-{}-{}.redb", std::process::id(), FILE_NO.fetch_add(1, Ordering::SeqCst)))
+    });
+    let out = rt.block_on(async {
+        let store = match &path {
+            Some(p) => RedbStore::open(p).await,
+            None => RedbStore::in_memory().await,
+        };
+        let store = match store {
+            Ok(s) => s,
+            Err(e) => return CloseOutcome::Setup(format!("open: {e}")),
+        };
+        let hs = headers();
+        if let Err(e) = store.insert(hs[..8].to_vec()).await {
+            return CloseOutcome::Setup(format!("initial insert: {e}"));
+        }
+        let raw = store.raw_db();
+        counter_sched_install(c.seed, delays_ns(&c.max_delay_us));
+        {
+            let mut next = 8usize;
+            let mut futs: Vec<Option<OpFut<'_>>> = c.ops.iter().map(|op| Some(op_future(&store, op, &mut next))).collect();
+            // first poll: creates the counter guard and hands the work to spawn_blocking
+            for f in futs.iter_mut() {
+                let fut = f.as_mut().unwrap();
+                if futures::poll!(fut.as_mut()).is_ready() {
+                    *f = None;
+                }
+            }
+            let aborted = |i: usize| c.abort_mask >> (i % 8) & 1 == 1;
+            if c.abort_first {
+                for (i, f) in futs.iter_mut().enumerate() {
+                    if aborted(i) {
+                        *f = None;
+                    }
+                }
+            }
+            for (i, f) in futs.iter_mut().enumerate() {
+                if !aborted(i) {
+                    if let Some(fut) = f.take() {
+                        fut.await;
+                    }
+                }
+            }
+            drop(futs);
+        }
+        let inflight_before = store.verif_inflight_refs();
+        let closed = tokio::time::timeout(GRACE, store.close()).await;
+        let refs_after = Arc::strong_count(&raw);
+        counter_sched_clear();
+        match closed {
+            Err(_) => CloseOutcome::Timeout,
+            Ok(_) => {
+                let mut reopen_err = None;
+                if refs_after == 1 {
+                    if let Some(p) = &path {
+                        // the caller's own handle is the last one: releasing it must free the file
+                        drop(raw);
+                        match RedbStore::open(p).await {
+                            Ok(s2) => {
+                                let _ = s2.close().await;
+                            }
+                            Err(e) => reopen_err = Some(e.to_string()),
+                        }
+                        return CloseOutcome::Closed {
+                            refs_after,
+                            refs_after_wait: 1,
+                            inflight_before,
+                            reopen_err,
+                        };
+                    }
+                }
+                tokio::time::sleep(Duration::from_millis(if refs_after == 1 { 0 } else { 30 })).await;
+                CloseOutcome::Closed {
+                    refs_after,
+                    refs_after_wait: Arc::strong_count(&raw),
+                    inflight_before,
+                    reopen_err,
+                }
+            }
+        }
+    });
+    counter_sched_clear();
+    rt.shutdown_timeout(Duration::from_secs(2));
+    if let Some(p) = path {
+        let _ = std::fs::remove_file(p);
+    }
+    out
+}
+
+fn run_close(c: &CloseCase, obs: &mut Obs) -> Result<(), Failure> {
+    let n_aborted = (0..c.ops.len()).filter(|i| c.abort_mask >> (i % 8) & 1 == 1).count();
+    let mut outcome = close_once(c);
+    if matches!(outcome, CloseOutcome::Timeout) {
+        outcome = match close_once(c) {
+            CloseOutcome::Timeout => {
+                obs.eval(Some(digest_of(c)));
+                obs.fail(
+                    "C41:close-hang",
+                    format!("{c:?}: RedbStore::close did not return within {GRACE:?}, twice under the same delay script"),
+                )?;
+                return Ok(());
+            }
+            other => {
+                obs.label("timeout-not-reproduced");
+                note_inconclusive(format!("store-close: {c:?} timed out once ({GRACE:?}) and did not reproduce"));
+                other
+            }
+        };
+    }
+    match outcome {
+        CloseOutcome::Setup(e) => Err(Failure::new("gen", format!("store-close setup failed: {e}"))),
+        CloseOutcome::Timeout => unreachable!(),
+        CloseOutcome::Closed {
+            refs_after,
+            refs_after_wait,
+            inflight_before,
+            reopen_err,
+        } => {
+            obs.eval((n_aborted > 0).then(|| digest_of(c)));
+            obs.label(if inflight_before > 0 { "close-with-inflight-work" } else { "close-without-inflight-work" });
+            if n_aborted > 0 {
+                obs.label("some-awaiting-futures-dropped");
+            }
+            if c.ops.len() > c.blocking_threads as usize {
+                obs.label("more-ops-than-blocking-threads");
+            }
+            obs.label(if c.on_disk { "on-disk" } else { "in-memory" });
+            obs.check(refs_after == 1, "C41:close-returned-while-task-holds-database", || {
+                format!(
+                    "{c:?}: after close() returned, Arc::strong_count(raw_db) = {refs_after} (expected 1: only the caller's handle); {inflight_before} blocking closure(s) held the store just before close; 30 ms later the count is {refs_after_wait}"
+                )
+            })?;
+            if let Some(e) = reopen_err {
+                obs.fail(
+                    "C41:close-returned-while-task-holds-database",
+                    format!("{c:?}: re-opening the database file right after close() failed: {e}"),
+                )?;
+            }
+            Ok(())
+        }
+    }
+}
+
+pub fn run(ctx: &mut Ctx) {
+    ctx.assume("(a) owns the whole schedule at poll granularity only; (b),(c) reach statement-level interleavings only probabilistically through 8 delay points (sched_point hooks at the statement boundaries of CounterGuard::drop and Counter::wait_guards) plus OS scheduling; not all interleavings are covered");
+    ctx.assume("tokio's Notify and Arc are trusted; a guard counts as 'past its drop' once its owner has started dropping it; hang = no return within 10 s real time after all guards are dropped, reproduced twice under the same delay script");
+    ctx.assume("(c) 'aborting an awaiting task' = dropping the operation's future after its first poll (the spawn_blocking closure keeps running or stays queued), the only way work can be in flight while close(self) owns the store; Arc::strong_count(raw_db)==1 is read immediately after close() returns");
+    ctx.essential(&[
+        "drop-while-waiter-pending",
+        "last-drop-woke-waiter",
+        "ready-at-first-poll",
+        "wait-cancelled-and-restarted",
+        "cancelled-a-parked-wait",
+        "threads-1-guard",
+        "threads-3-guards",
+        "close-with-inflight-work",
+        "some-awaiting-futures-dropped",
+        "more-ops-than-blocking-threads",
+    ]);
+
+    // (a)
+    let max_len = ctx.tier.pick(9, 11);
+    let scheds = all_schedules(max_len);
+    eprintln!("[C41/poll-schedules] {} schedules of length <= {max_len}", scheds.len());
+    ctx.enumerate(
+        "poll-schedules",
+        &format!("ALL schedules of at most {max_len} actions over {{poll waiter, drop guard i, cancel wait + create k guards + wait again (at most 2 restarts)}} with at most 3 guards ever created and 0..3 initial guards; oracle per poll: Ready iff no live guard; the last drop while the waiter is parked must wake its waker; final poll decides. Non-trivial = a guard was dropped while the waiter was parked"),
+        true,
+        scheds,
+        run_sched,
+    );
+
+    // (b)
+    ctx.set_shrink_iters(4);
+    let cases = ctx.tier.pick(200, 6_000);
+    let iters: u16 = ctx.tier.pick(50, 100);
+    ctx.proptest_serial(
+        "threads",
+        "per case: 1..3 guard holders + 1 waiter on real threads, per-point maximal delays 0..50 us at the 8 sched points, start jitter 0..40 us; 50 (thorough 100) iterations per case with derived delay seeds; one evaluation per iteration: wait_guards returns only after every holder began dropping, and returns within 10 s once all have. Every iteration is non-trivial (distinct by derived seed + parameters)",
+        cases,
+        move || stress_strategy(iters),
+        run_stress,
+    );
+
+    // (c)
+    let cases = ctx.tier.pick(300, 5_000);
+    ctx.proptest_serial(
+        "store-close",
+        "per case: RedbStore (in-memory, 15% on disk) on a multi-thread runtime with 1..3 blocking threads, 8 headers pre-inserted; 1..6 operations (insert 1..12 headers, get_head, get_by_height, has_at, mark_as_sampled, stored ranges, remove lowest) polled once, a generated subset of their futures dropped (before or after the others were awaited), delays at the counter's sched points, then close(): must return within 10 s and leave Arc::strong_count(raw_db)==1 (on disk: the file can be re-opened). Non-trivial = at least one awaiting future was dropped",
+        cases,
+        close_strategy,
+        run_close,
+    );
+    ctx.set_shrink_iters(2000);
+
+    let inc: Vec<String> = std::mem::take(&mut *INCONCLUSIVE.lock().unwrap_or_else(|e| e.into_inner()));
+    for s in inc {
+        ctx.inconclusive(s);
+    }
 }
